@@ -298,3 +298,41 @@ func VH_C11_e2e() {
 	vAssert("C11.e2e.variants-ok", e3 == nil)
 	vAssert("C11.e2e.sam-variants-equals-variants-on-toPairAlign-output", string(w1.buf) == string(w2.buf))
 }
+
+// VH_C11_e2e_opts (same comparison with --aggregate and --start/--end windows, fewer symbolic bases):
+// VH_C11_e2e: the whole command functions: sam.Variants() on SAM text versus variants.Variants() on the
+// FASTA that sam.ToPairAlign() writes for the same query (GenBank annotation, reference from the file or
+// from the annotation), with symbolic bases incl. the first and last reference positions.
+func VH_C11_e2e_opts() {
+	ref := []byte("ACGTTGCAAATG")
+	L := len(ref)
+	gbtr, _ := alphabet.Translate(string(ref[3:9]), false)
+	gb := "LOCUS       TEST 12 bp DNA\nFEATURES             Location/Qualifiers\n     CDS             4..9\n                     /gene=\"g\"\n                     /codon_start=1\n                     /translation=\"" + gbtr + "\"\nORIGIN\n        1 " + string(ref) + "\n//\n"
+	// one query covering the whole reference, with symbolic bases at five positions incl. both ends
+	q := append([]byte{}, ref...)
+	for _, p := range []int{4, 8, L - 1} {
+		q[p] = vNuc(vName("q", p), "ACGT")
+	}
+	cigar := "12M"
+	seq := string(q)
+	if vBool("withInsertion") {
+		cigar = "6M1I6M"
+		seq = string(q[:6]) + string([]byte{vNuc("ins", "ACGT")}) + string(q[6:])
+	}
+	samTxt := "@HD\tVN:1.6\n@SQ\tSN:ref\tLN:12\nq1\t0\tref\t1\t60\t" + cigar + "\t*\t0\t0\t" + seq + "\t*\n"
+	refFasta := []byte(">ref\n" + string(ref) + "\n")
+	refFromFile := vBool("refFromFile")
+	aggregate := vBool("aggregate")
+	win := [][2]int{{-1, -1}, {2, 8}, {5, 12}}[vChoice("window", 3)]
+	w1 := &vCapture{}
+	e1 := Variants(bytes.NewReader([]byte(samTxt)), bytes.NewReader(refFasta), refFromFile, bytes.NewReader([]byte(gb)), "gb", w1, win[0], win[1], aggregate, 0, true, 2)
+	vAssert("C11.e2e-opts.sam-variants-ok", e1 == nil)
+	vStdoutCapture()
+	e2 := ToPairAlign(bytes.NewReader([]byte(samTxt)), bytes.NewReader(refFasta), "stdout", 0, -1, -1, false, false, 2)
+	pairFasta := vStdout()
+	vAssert("C11.e2e-opts.topairalign-ok", e2 == nil && len(pairFasta) > 0)
+	w2 := &vCapture{}
+	e3 := variants.Variants(bytes.NewReader([]byte(pairFasta)), false, "ref", bytes.NewReader([]byte(gb)), "gb", w2, win[0], win[1], aggregate, 0, true, 2)
+	vAssert("C11.e2e-opts.variants-ok", e3 == nil)
+	vAssert("C11.e2e-opts.sam-variants-equals-variants-on-toPairAlign-output", string(w1.buf) == string(w2.buf))
+}
